@@ -238,41 +238,43 @@ class Gateway(Engine):
 
         self._pause()
 
-        def wanted_msg(msg: Message, include_expired: bool = False) -> bool:
-            if msg.code == Code._313F:
-                return msg.verb in (I_, RP)  # usu. expired, useful 4 back-back restarts
-            if msg._expired and not include_expired:
-                return False
-            if msg.code == Code._0404:
-                return msg.verb in (I_, W_) and msg._pkt._len > 7
-            if msg.verb in (W_, RQ):
-                return False
-            # if msg.code == Code._1FC9 and msg.verb != RP:
-            #     return True
-            return include_expired or not msg._expired
+        try:  # always resume the engine, even if the below raises an exception
+            def wanted_msg(msg: Message, include_expired: bool = False) -> bool:
+                if msg.code == Code._313F:
+                    return msg.verb in (I_, RP)  # usu. expired, useful 4 back-back restarts
+                if msg._expired and not include_expired:
+                    return False
+                if msg.code == Code._0404:
+                    return msg.verb in (I_, W_) and msg._pkt._len > 7
+                if msg.verb in (W_, RQ):
+                    return False
+                # if msg.code == Code._1FC9 and msg.verb != RP:
+                #     return True
+                return include_expired or not msg._expired
 
-        msgs = [m for device in self.devices for m in device._msg_db]
+            msgs = [m for device in self.devices for m in device._msg_db]
 
-        for system in self.systems:
-            msgs.extend(list(system._msgs.values()))
-            msgs.extend([m for z in system.zones for m in z._msgs.values()])
-            # msgs.extend([m for z in system.dhw for m in z._msgs.values()])  # TODO
+            for system in self.systems:
+                msgs.extend(list(system._msgs.values()))
+                msgs.extend([m for z in system.zones for m in z._msgs.values()])
+                # msgs.extend([m for z in system.dhw for m in z._msgs.values()])  # TODO
 
-        if self._zzz:
-            pkts = {
-                f"{repr(msg._pkt)[:26]}": f"{repr(msg._pkt)[27:]}"
-                for msg in self._zzz.all(include_expired=True)
-                if wanted_msg(msg, include_expired=include_expired)
-            }
+            if self._zzz:
+                pkts = {
+                    f"{repr(msg._pkt)[:26]}": f"{repr(msg._pkt)[27:]}"
+                    for msg in self._zzz.all(include_expired=True)
+                    if wanted_msg(msg, include_expired=include_expired)
+                }
 
-        else:
-            pkts = {  # BUG: assumes pkts have unique dtms: may be untrue for contrived logs
-                f"{repr(msg._pkt)[:26]}": f"{repr(msg._pkt)[27:]}"
-                for msg in msgs
-                if wanted_msg(msg, include_expired=include_expired)
-            }
+            else:
+                pkts = {  # BUG: assumes pkts have unique dtms: may be untrue for contrived logs
+                    f"{repr(msg._pkt)[:26]}": f"{repr(msg._pkt)[27:]}"
+                    for msg in msgs
+                    if wanted_msg(msg, include_expired=include_expired)
+                }
 
-        self._resume()
+        finally:
+            self._resume()
 
         return self.schema, dict(sorted(pkts.items()))
 
@@ -298,41 +300,43 @@ class Gateway(Engine):
         _LOGGER.warning("GATEWAY: Restoring a cached packet log...")
         self._pause()
 
-        if _clear_state:  # only intended for test suite use
-            clear_state()
+        try:  # always resume the engine, even if the below raises an exception
+            if _clear_state:  # only intended for test suite use
+                clear_state()
 
-        # We do not always enforce the known_list whilst restoring a cache because
-        # if it does not contain a correctly configured HGI, a 'working' address is
-        # used (which could be different to the address in the cache) & wanted packets
-        # can be dropped unneccesarily.
+            # We do not always enforce the known_list whilst restoring a cache because
+            # if it does not contain a correctly configured HGI, a 'working' address is
+            # used (which could be different to the address in the cache) & wanted packets
+            # can be dropped unneccesarily.
 
-        enforce_include_list = bool(
-            self._enforce_known_list
-            and extract_known_hgi_id(
-                self._include, disable_warnings=True, strick_checking=True
+            enforce_include_list = bool(
+                self._enforce_known_list
+                and extract_known_hgi_id(
+                    self._include, disable_warnings=True, strick_checking=True
+                )
             )
-        )
 
-        # The actual HGI address will be discovered when the actual transport was/is
-        # started up (usually before now)
+            # The actual HGI address will be discovered when the actual transport was/is
+            # started up (usually before now)
 
-        tmp_protocol = protocol_factory(
-            self._msg_handler,
-            disable_sending=True,
-            enforce_include_list=enforce_include_list,
-            exclude_list=self._exclude,
-            include_list=self._include,
-        )
+            tmp_protocol = protocol_factory(
+                self._msg_handler,
+                disable_sending=True,
+                enforce_include_list=enforce_include_list,
+                exclude_list=self._exclude,
+                include_list=self._include,
+            )
 
-        tmp_transport = await transport_factory(
-            tmp_protocol,
-            packet_dict=packets,
-        )
+            tmp_transport = await transport_factory(
+                tmp_protocol,
+                packet_dict=packets,
+            )
 
-        await tmp_transport.get_extra_info(SZ_READER_TASK)
+            await tmp_transport.get_extra_info(SZ_READER_TASK)
 
-        _LOGGER.warning("GATEWAY: Restored, resuming")
-        self._resume()
+        finally:
+            _LOGGER.warning("GATEWAY: Restored, resuming")
+            self._resume()
 
     def _add_device(self, dev: Device) -> None:  # TODO: also: _add_system()
         """Add a device to the gateway (called by devices during instantiation)."""
